@@ -6,7 +6,7 @@ def build_registry(world=None) -> Registry:
     from pyvc.world import World
     world = world or World()
     reg = Registry()
-    from . import c_utils, c_event, c_context, c_context_tables, c_context_lookup, c_teardown, lib_anyio, c_lifecycle, c_dispatch, c_concurrent
+    from . import c_utils, c_event, c_context, c_context_tables, c_context_lookup, c_teardown, lib_anyio, c_lifecycle, c_dispatch, c_concurrent, c_component
     c_utils.register(reg)
     c_event.register(reg)
     c_context.register(reg)
@@ -18,6 +18,7 @@ def build_registry(world=None) -> Registry:
     c_dispatch.register(reg)
     c_concurrent.register(reg)
     c_concurrent.register2(reg)
+    c_component.register(reg)
     reg._signal_decls = reg._signal_decl_finder(world)
     reg.world = world
     import os
